@@ -4,8 +4,11 @@ package main
 // for the properties that are about the session table, the pivot forest and the DB.
 
 import (
+	"database/sql"
 	"encoding/binary"
 	"os"
+	"reflect"
+	"unsafe"
 
 	server "Havoc/cmd/server"
 	"Havoc/pkg/db"
@@ -32,7 +35,25 @@ func newRealWorld(tag string) *realWorld {
 
 func (w *realWorld) close() {
 	if w != nil && w.dir != "" {
+		if w.ts != nil {
+			closeDB(w.ts.DB)
+		}
 		os.RemoveAll(w.dir)
+	}
+}
+
+// closeDB releases the file handles of a database the harness opened.  pkg/db has no Close (the teamserver keeps
+// its one database for its lifetime); a long run opens thousands.  The *sql.DB sits in an unexported field.
+func closeDB(d *db.DB) {
+	if d == nil {
+		return
+	}
+	f := reflect.ValueOf(d).Elem().FieldByName("db")
+	if !f.IsValid() || f.IsNil() {
+		return
+	}
+	if h, ok := reflect.NewAt(f.Type(), unsafe.Pointer(f.UnsafeAddr())).Elem().Interface().(*sql.DB); ok && h != nil {
+		h.Close()
 	}
 }
 
